@@ -27,6 +27,19 @@ def monitor_units(prop):
     return out
 
 
+CLASS_MODULES = ["contracts.c20"]
+
+
+def class_units(prop):
+    out = []
+    for m in CLASS_MODULES:
+        mod = importlib.import_module(m)
+        for c in getattr(mod, "CLASSES", []):
+            if prop in c.props:
+                out.append({"runner": "classref", "module": m, "name": c.name, "prop": prop, "id": c.uid})
+    return out
+
+
 MIXINS = [
     ("combination", "CombinationMixin"), ("conditional", "ConditionalMixin"), ("error_handling", "ErrorHandlingMixin"),
     ("filtering", "FilteringMixin"), ("mathematical", "MathematicalMixin"), ("multicasting", "MulticastingMixin"),
@@ -47,6 +60,9 @@ FAMILIES = {
     "C26": ["monitor"],
     "C27": ["monitor"],
     "C39": ["forward"],
+    "C20": ["class"],
+    "C21": ["class"],
+    "C23": ["class"],
 }
 
 
@@ -59,6 +75,8 @@ def units_for(prop, tier):
         us += monitor_units(prop)
     if "forward" in fams:
         us += forward_units(prop)
+    if "class" in fams:
+        us += class_units(prop)
     for u in us:
         u["tier"] = tier
     return us
